@@ -9,6 +9,7 @@ import TaskctlVerif.Model.Layers
 import TaskctlVerif.Model.Vars
 import TaskctlVerif.Model.Capture
 import TaskctlVerif.Model.Imports
+import TaskctlVerif.Model.Refs
 /-!
 Line-protocol oracle: one case per line on stdin (`<family> <payload>`), one observation per line on
 stdout.  Compiled from exactly the definitions the theorems are about (core Lean only).
@@ -283,6 +284,24 @@ def importsCase (fields : List String) : String :=
   | .err => "err"
   | .outOfFuel => "out-of-fuel"
 
+/-- `refs tasks=t0,t1 watch=t0 pipes=p0=s0/t:t0/-;s1/p:p1/s0+s2|p1=…` -/
+def refsCase (fields : List String) : String :=
+  let tasks := splitNonEmpty (kv fields "tasks") ","
+  let watch := if kv fields "watch" = "-" then [] else splitNonEmpty (kv fields "watch") ","
+  let pipes : List (String × List Refs.StageDef) := (splitNonEmpty (kv fields "pipes") "|").filterMap fun pd =>
+    match pd.splitOn "=" with
+    | [pn, body] =>
+      some (pn, (splitNonEmpty body ";").filterMap fun sd =>
+        match sd.splitOn "/" with
+        | [nm, ref, deps] =>
+          let ds := if deps = "-" then [] else splitNonEmpty deps "+"
+          if ref.startsWith "t:" then some { name := nm, task := some (ref.drop 2).toString, pipeline := "", deps := ds }
+          else some { name := nm, task := none, pipeline := (ref.drop 2).toString, deps := ds }
+        | _ => none)
+    | [pn] => some (pn, [])
+    | _ => none
+  if Refs.accept { tasks := tasks, pipelines := pipes, watchers := watch } then "accept" else "reject"
+
 def handle (line0 : String) : String :=
   if line0.startsWith "args " then argsCase ((line0.dropEndWhile (· == '\n')).toString) else
   let line := line0.trimAscii.toString
@@ -300,6 +319,7 @@ def handle (line0 : String) : String :=
   | "vars" :: rest => varsCase rest
   | "envname" :: rest => envnameCase rest
   | "imports" :: rest => importsCase rest
+  | "refs" :: rest => refsCase rest
   | _ => "bad-op"
 
 partial def loop (h : IO.FS.Stream) (out : IO.FS.Stream) : IO Unit := do
